@@ -129,20 +129,19 @@ type Outcome struct {
 	DecRLE   string            `json:"decisions,omitempty"`
 }
 
-// GCEvery: run two GC cycles (emptying sync.Pools) before every n-th run of a
-// process. 1 isolates every run from its predecessors; micro worlds with no
-// pooled state use a larger value for throughput.
-var GCEvery = 1
-
-var runCount int
+// GCBetween: run two GC cycles (emptying sync.Pools) before every run, which
+// isolates a run from pooled state left by its predecessors. It must be the
+// same for every run of a world (a GC changes the next run's sync.Pool slow
+// paths, i.e. its scheduling points); micro worlds with no pooled state turn
+// it off for throughput and keep their batches short instead.
+var GCBetween = true
 
 // Run executes body inside one synctest bubble under the deterministic
 // scheduler. body runs on the bubble's root goroutine; when it returns, every
 // goroutine it started must have exited or the bubble reports a deadlock,
 // which is returned as Outcome.Deadlock (oracles decide whether it matters).
 func Run(t *testing.T, sc Sched, wantLog, wantDec bool, body func(e *Env)) Outcome {
-	runCount++
-	if GCEvery <= 1 || runCount%GCEvery == 1 {
+	if GCBetween {
 		runtime.GC()
 		runtime.GC()
 	}
